@@ -162,6 +162,70 @@ def run_unit(unit_dir, tag, tier, want_neg=True, only_part=None, prop=None):
     return out
 
 
+PINNED = os.path.join(CONTRACTS, "pinned.json")
+_KW = set("as break const continue crate else enum extern false fn for if impl in let loop match mod move mut pub ref return self Self static struct super trait true type unsafe use where while async await dyn".split())
+
+
+def _tokens(text):
+    from vlib.rustlex import mask
+    return re.findall(r"[A-Za-z_][A-Za-z0-9_]*|\S", mask(text))
+
+
+def alpha_renaming(old, new):
+    """{old_ident: new_ident} if `new` is `old` under a consistent, injective renaming of identifiers (same token
+    sequence otherwise), {} if the texts are token-identical, None if they differ in any other way."""
+    a, b = _tokens(old), _tokens(new)
+    if len(a) != len(b):
+        return None
+    mp, inv = {}, {}
+    for x, y in zip(a, b):
+        if x == y:
+            continue
+        if not (re.fullmatch(r"[A-Za-z_][A-Za-z0-9_]*", x) and re.fullmatch(r"[A-Za-z_][A-Za-z0-9_]*", y)):
+            return None
+        if x in _KW or y in _KW:
+            return None
+        if mp.get(x, y) != y or inv.get(y, x) != x:
+            return None
+        mp[x], inv[y] = y, x
+    # a renamed identifier must be renamed everywhere, and its new name must be fresh
+    for x, y in zip(a, b):
+        if x == y and (x in mp or x in inv):
+            return None
+    return mp
+
+
+POSITIONAL_KINDS = ("before", "after", "tail", "loopstart", "loopend")
+_HARD_SCAFFOLD = ("loop_invariant", "loop_ensures", "loop_decreases", "loop_bind", "requires", "closure_ptype", "closure_sig")
+
+
+def _introduced(text):
+    """ghost identifiers a clause declares or assigns"""
+    ids = set(re.findall(r"let\s+ghost\s+(?:mut\s+)?([A-Za-z_][A-Za-z0-9_]*)", text))
+    ids |= set(re.findall(r"(?<![A-Za-z0-9_.=!<>])([A-Za-z_][A-Za-z0-9_]*)\s*=(?!=)", text)) - {"let", "ghost", "mut"}
+    return ids
+
+
+def _depends_on_lost(f, lost):
+    """ids of the lost scaffolding clauses the failed obligation may rest on: every lost invariant / precondition /
+    closure annotation of the function, and every lost helper that declares or assigns a ghost name the obligation uses.
+    An obligation without a clause of its own (implicit safety obligation) rests on all of them."""
+    out = []
+    ftext = f.clause.text if f.clause is not None and hasattr(f.clause, "text") else None
+    fids = set(re.findall(r"[A-Za-z_][A-Za-z0-9_]*", ftext)) if ftext is not None else None
+    for c in lost:
+        if c["kind"] in _HARD_SCAFFOLD or fids is None or (_introduced(c["text"]) & fids):
+            out.append(c["id"])
+    return out
+
+
+def load_pinned():
+    try:
+        return json.load(open(PINNED))
+    except Exception:
+        return {}
+
+
 def _repairs(bb, run):
     """What the repair loop can do about non-obligation errors of a run: clauses that no longer
     type-check against the (changed) code are dropped like lost anchors; callees the code newly calls are
@@ -217,10 +281,23 @@ def run_part(unit_dir, tag, tier, want_neg, part):
     out = os.path.join(BUILD, tag, name + ".rs")
     drop, extra = set(), []
     unfold = {}          # fnpath -> [(offset in the rewritten text, variant)]   (R21, repair only)
+    renames = {}         # fnpath -> {old identifier: new identifier}            (alpha-renaming repair)
+    if not os.environ.get("VERIF_NO_REPAIR"):
+        pinned = load_pinned().get(os.path.basename(unit_dir), {})
+        if pinned:
+            try:
+                b0 = B.build_unit(unit_dir, out, bodies=bodies)
+                for p0 in b0.pieces:
+                    if p0.kind == "fn" and p0.fnpath in pinned and getattr(p0, "orig", None) and p0.orig != pinned[p0.fnpath]:
+                        mp = alpha_renaming(pinned[p0.fnpath], p0.orig)
+                        if mp:
+                            renames[p0.fnpath] = mp
+            except B.Undecided:
+                pass
     b = run = None
     for attempt in range(6):
         try:
-            b = B.build_unit(unit_dir, out, bodies=bodies, drop_clauses=drop, extra_items=extra, unfold=unfold)
+            b = B.build_unit(unit_dir, out, bodies=bodies, drop_clauses=drop, extra_items=extra, unfold=unfold, renames=renames)
             if bodies is not None:
                 have = {p.fnpath for p in b.pieces if p.kind == "fn"}
                 for x in bodies - have:
@@ -268,6 +345,9 @@ def run_part(unit_dir, tag, tier, want_neg, part):
         for (cid, tags) in getattr(p, "unfolded_clauses", []):
             res["undecided"].append("closure annotated by clause %s was unfolded (R21: changed code captures a mutable reference in an Option/Result combinator closure)%s"
                                     % (cid, "" if tags else " [untagged helper]"))
+    res["renamed"] = {k: v for k, v in renames.items()}
+    res["anchor_lost"] = {p.fnpath: list(getattr(p, "anchor_lost", [])) for p in b.pieces if getattr(p, "anchor_lost", None)}
+    res["scaffold_lost"] = {p.fnpath: list(getattr(p, "scaffold_lost", [])) for p in b.pieces if getattr(p, "scaffold_lost", None)}
     for e in extra:
         res["undecided"].append("callee %s is not part of this unit: extracted on the fly as a contract-less stub"
                                 % (e.get("names") or e.get("name")))
@@ -278,7 +358,7 @@ def run_part(unit_dir, tag, tier, want_neg, part):
                 paths = {p.fnpath for p in g}
                 outn = os.path.join(BUILD, tag, "%s_neg%d.rs" % (name, gi))
                 try:
-                    bn = B.build_unit(unit_dir, outn, neg_control=paths, bodies=bodies)
+                    bn = B.build_unit(unit_dir, outn, neg_control=paths, bodies=bodies, renames=renames)
                 except B.Undecided as e:
                     res["undecided"].append("negative control: %s" % e)
                     continue
@@ -501,7 +581,24 @@ def check_property(prop, tier, quiet=False):
                 undecided.append("%s: structural helper clause %s failed (%s): proof broke, property undecided"
                                  % (b.uid, oid, f.msg))
             elif prop in tags:
-                violations.append(rec)
+                fpiece = f.piece if f.piece is not None else f.code_piece
+                fn_of = fpiece.fnpath if fpiece is not None else None
+                lostsc = r.get("scaffold_lost", {}).get(fn_of) if fn_of else None
+                dep = _depends_on_lost(f, lostsc) if lostsc else None
+                shape = r.get("anchor_lost", {}).get(fn_of) if fn_of else None
+                if not dep and shape and f.clause is not None and getattr(f.clause, "kind", "") in POSITIONAL_KINDS \
+                        and os.environ.get("VERIF_POSITIONAL", "strict") == "strict":
+                    # an anchor of this function vanished, i.e. its shape changed: an assertion that is tied to a program
+                    # point (before/after/tail/loopstart/loopend) may now sit at a point it was not written for
+                    dep = ["shape changed: anchors lost for " + ", ".join(shape[:3])]
+                if dep and not os.environ.get("VERIF_LOOSE"):
+                    # part of this function's proof scaffolding (invariants, ghost declarations, closure annotations,
+                    # untagged helpers) no longer applies to the changed code and the failed obligation rests on it:
+                    # the failure may be an artefact of the missing scaffolding => undecided, never an alarm
+                    undecided.append("%s: obligation %s failed, but it rests on scaffolding of %s that was lost (%s): undecided"
+                                     % (b.uid, oid, fn_of, ", ".join(dep[:4])))
+                else:
+                    violations.append(rec)
                 failed_ids.add(re.sub(r"\.safety\[.*\]$", ".safety", oid))
             else:
                 ignored.append(rec)
@@ -753,6 +850,7 @@ def cmd_ledger(args):
         print("refusing: /repo has uncommitted changes to tracked files")
         return 2
     led = {}
+    pinned_out = {}
     for u in all_units().values():
         if u.get("disabled"):
             continue
@@ -769,6 +867,9 @@ def cmd_ledger(args):
             if b is None or bad or r["undecided"]:
                 print("unit %s does not verify; ledger not written: %s %s" % (r["unit"], bad[:3], r["undecided"][:2]))
                 return 2
+            for pc in b.pieces:
+                if pc.kind in ("fn", "stub") and pc.fnpath and getattr(pc, "orig", None):
+                    pinned_out.setdefault(os.path.basename(u["_dir"]), {})[pc.fnpath] = getattr(pc, "stub_of", None) or pc.orig
             for p in u.get("properties", []):
                 named, implicit, assumed = unit_obligations(b, p)
                 cur = led[u["id"]].setdefault(p, [])
@@ -780,6 +881,8 @@ def cmd_ledger(args):
             led[uid][p].sort()
     with open(LEDGER, "w") as f:
         json.dump(led, f, indent=1, sort_keys=True)
+    with open(PINNED, "w") as f:
+        json.dump(pinned_out, f, indent=0, sort_keys=True)
     print("ledger written: %d units, %d obligation ids" % (len(led), sum(len(v) for d in led.values() for v in d.values())))
     return 0
 
